@@ -5,6 +5,9 @@
 //   --mode 4  Trace_HttpTransfer.tla     uploads, downloads, form bodies, routing calls
 // Several threads run scenarios of the recorded kind at once (plus two unlogged threads running the other kinds against the
 // same servers); a scenario is logged as one block of consecutive lines when it ends.  Only observations are logged.
+// Every exchange-type event (call / xchg, end / get / upload, download, form, route) carries "ms", its wall time (c10_common.h):
+// the specifications do not constrain the observation of one that took C10_SLOW_MS or longer (the library's own time limits may
+// have fired), checks/C10.py bounds how many of those there may be.
 #include "c10_site.h"
 #include "vrec.h"
 #include <signal.h>
@@ -61,7 +64,7 @@ static void recRedirect(Rng& r, bool logit)
 	RedirObs o = runRedirect(c);
 	if (!logit) return;
 	std::vector<std::string> b;
-	b.push_back("{\"e\":\"call\",\"site\":" + site + ",\"call\":" + call + ",\"bh\":" + limbs64(sentBodyHash(blen)) + "}");
+	b.push_back("{\"e\":\"call\"," + kv("ms", o.ms) + ",\"site\":" + site + ",\"call\":" + call + ",\"bh\":" + limbs64(sentBodyHash(blen)) + "}");
 	for (size_t i = 0; i < o.visits.size(); i++)
 	{
 		const RedirObs::V& v = o.visits[i];
@@ -128,11 +131,13 @@ static void recRules(Rng& r, bool logit)
 	}
 	hist += "]";
 	vj::Value c = vj::parse("{\"cfg\":" + cfg + ",\"hist\":" + hist + "}");
-	RulesObs o = runRules(c);
+	RulesObs o = runRules(c, C10_SLOW_MS);
 	if (!logit) return;
 	std::vector<std::string> b;
 	b.push_back("{\"e\":\"conn\",\"cfg\":" + cfg + "}");
-	for (size_t i = 0; i < reqs.size(); i++)
+	// (a connection abandoned as slow ends with the exchange that crossed the limit: the others were not played)
+	size_t played = o.open == -2 && !o.xs.empty() ? o.xs.size() : reqs.size();
+	for (size_t i = 0; i < played; i++)
 	{
 		RulesObs::X x;
 		if (i < o.xs.size()) x = o.xs[i];
@@ -150,12 +155,12 @@ static void recRules(Rng& r, bool logit)
 		std::string interim = "[";
 		for (size_t k = 0; k < x.interim.size(); k++) interim += (k ? "," : "") + std::to_string(x.interim[k]);
 		interim += "]";
-		b.push_back("{\"e\":\"xchg\",\"req\":" + reqs[i] + ",\"obs\":{\"interim\":" + interim + "," + kv("code", x.code) + "," + ks("proto", x.proto) + ",\"unclosed\":" + jb(x.unclosed) +
+		b.push_back("{\"e\":\"xchg\"," + kv("ms", x.ms) + ",\"req\":" + reqs[i] + ",\"obs\":{\"interim\":" + interim + "," + kv("code", x.code) + "," + ks("proto", x.proto) + ",\"unclosed\":" + jb(x.unclosed) +
 		            "," + kv("runs", x.handlerRuns) + "," + ks("hmethod", x.hmethod) + "," + kv("hblen", x.hblen) + ",\"hbh\":" + limbs64(x.hbh) +
 		            ",\"reqbh\":" + limbs64(rulesReqBodyHash(rq["blen"].i(), (int)i + 1)) + "," + kv("blen", x.blen) + ",\"bh\":" + limbs64(x.bh) +
 		            ",\"respbh\":" + limbs64(rulesRespBodyHash(rq["hblen"].i(), (int)i + 1)) + ",\"headers\":" + hs + "}}");
 	}
-	b.push_back("{\"e\":\"end\"," + kv("open", o.open) + "," + ks("note", o.note) + "}");
+	b.push_back("{\"e\":\"end\"," + kv("ms", o.endMs) + "," + kv("open", o.open) + "," + ks("note", o.note) + "}");
 	logBlock(b);
 }
 
@@ -269,7 +274,7 @@ static void recStatic(Rng& r, bool logit)
 		}
 		int a = -1, z = -1, t = -1;
 		if (sscanf(g.crange.c_str(), "bytes %d-%d/%d", &a, &z, &t) != 3) a = z = t = -1;
-		b.push_back("{\"e\":\"get\",\"req\":" + reqJson[gi] + ",\"obs\":{" + kv("code", g.code) + "," + ks("ctype", g.ctype) + ",\"haslm\":" + jb(g.hasLM) + ",\"lmok\":" + jb(g.lmOk) + "," + kv("lm", g.lm) +
+		b.push_back("{\"e\":\"get\"," + kv("ms", g.ms) + ",\"req\":" + reqJson[gi] + ",\"obs\":{" + kv("code", g.code) + "," + ks("ctype", g.ctype) + ",\"haslm\":" + jb(g.hasLM) + ",\"lmok\":" + jb(g.lmOk) + "," + kv("lm", g.lm) +
 		            ",\"hasdate\":" + jb(g.hasDate) + ",\"dateok\":" + jb(g.dateOk) + ",\"hascc\":" + jb(g.hasCC && !g.cc.empty()) + "," + ks("cc", g.cc) + ",\"hasloc\":" + jb(g.hasLoc) +
 		            ",\"lochere\":" + jb(g.locHere) + ",\"locsegs\":" + strs(ls) + ",\"locslash\":" + jb(lslash) + "," + kv("blen", g.blen) + "," + kv("bf", g.bf) + "," + kv("bver", g.bver) + "," +
 		            kv("bfrom", g.bfrom) + ",\"cr\":[" + std::to_string(a) + "," + std::to_string(z) + "," + std::to_string(t) + "]}}");
@@ -315,7 +320,7 @@ static void recTransfer(Rng& r, bool logit)
 				inner = o.v.body.substr(he + 4, o.v.body.size() - (he + 4) - (bl + 8));
 			}
 		}
-		b.push_back("{\"e\":\"upload\",\"fname\":" + vj::codes(fname) + ",\"ctype\":" + vj::codes(ctype) + ",\"exists\":" + jb(exists) + "," + kv("hcode", hcode) + "," + kv("fsize", fsize) +
+		b.push_back("{\"e\":\"upload\"," + kv("ms", o.ms) + ",\"fname\":" + vj::codes(fname) + ",\"ctype\":" + vj::codes(ctype) + ",\"exists\":" + jb(exists) + "," + kv("hcode", hcode) + "," + kv("fsize", fsize) +
 		            ",\"small\":" + jb(small) + ",\"file\":" + vj::codes(small ? o.sent : std::string()) + ",\"obs\":{\"ret\":" + jb(o.ret) + "," + kv("calls", o.calls) + "," + ks("method", o.v.method) +
 		            ",\"ctype\":" + vj::codes(o.v.ctype) + "," + kv("clen", o.v.clen.empty() ? -1 : atol(o.v.clen.c_str())) + "," + kv("blen", (long)o.v.body.size()) + ",\"body\":" + vj::codes(small ? o.v.body : std::string()) +
 		            ",\"head\":" + vj::codes(head) + ",\"tail\":" + vj::codes(tail) + ",\"innereq\":" + jb(inner == o.sent) + "}}");
@@ -334,7 +339,7 @@ static void recTransfer(Rng& r, bool logit)
 		std::string want;
 		if (file) { want.resize((size_t)blen); for (int i = 0; i < blen; i++) want[(size_t)i] = (char)fileByte(blen, i, 5); }
 		else { ByteArray a = makeBody(blen, seed); want.assign((const char*)a.data(), (size_t)a.length()); }
-		b.push_back("{\"e\":\"download\"," + kv("code", code) + "," + kv("blen", blen) + ",\"obs\":{\"ret\":" + jb(o.ret) + "," + kv("calls", o.calls) + "," + ks("method", o.v.method) + ",\"fexists\":" + jb(o.fileExists) +
+		b.push_back("{\"e\":\"download\"," + kv("ms", o.ms) + "," + kv("code", code) + "," + kv("blen", blen) + ",\"obs\":{\"ret\":" + jb(o.ret) + "," + kv("calls", o.calls) + "," + ks("method", o.v.method) + ",\"fexists\":" + jb(o.fileExists) +
 		            "," + kv("flen", (long)o.fileContent.size()) + ",\"feq\":" + jb(o.fileContent == want) + ",\"pmono\":" + jb(o.progressMono) + "," + kv("plast", o.progressLast) + "}}");
 	}
 	else if (k < 75)
@@ -353,7 +358,7 @@ static void recTransfer(Rng& r, bool logit)
 		vj::Value c = vj::parse("{\"kind\":\"body\",\"body\":{\"kind\":\"form\",\"json\":0,\"pairs\":" + pairs + "}}");
 		XferObs o = runTransfer(c);
 		if (!logit) return;
-		b.push_back("{\"e\":\"form\",\"pairs\":" + pairs + ",\"obs\":{" + kv("calls", o.calls) + ",\"ctype\":" + vj::codes(o.v.ctype) + ",\"body\":" + vj::codes(o.v.body) + "}}");
+		b.push_back("{\"e\":\"form\"," + kv("ms", o.ms) + ",\"pairs\":" + pairs + ",\"obs\":{" + kv("calls", o.calls) + ",\"ctype\":" + vj::codes(o.v.ctype) + ",\"body\":" + vj::codes(o.v.body) + "}}");
 	}
 	else
 	{
@@ -378,7 +383,7 @@ static void recTransfer(Rng& r, bool logit)
 		std::string res = "[";
 		for (size_t i = 0; i < o.v.route.size(); i++) res += std::string(i ? "," : "") + "{\"ok\":" + jb(o.v.route[i].first) + ",\"suffix\":" + vj::codes(o.v.route[i].second) + "}";
 		res += "]";
-		b.push_back("{\"e\":\"route\"," + ks("method", method) + ",\"segs\":" + sj + ",\"calls\":" + calls + ",\"obs\":{" + kv("calls", o.calls) + ",\"results\":" + res + "}}");
+		b.push_back("{\"e\":\"route\"," + kv("ms", o.ms) + "," + ks("method", method) + ",\"segs\":" + sj + ",\"calls\":" + calls + ",\"obs\":{" + kv("calls", o.calls) + ",\"results\":" + res + "}}");
 	}
 	logBlock(b);
 }
@@ -409,6 +414,7 @@ int main(int argc, char** argv)
 	Args args(argc, argv);
 	Rng rng(args.seed);
 	signal(SIGPIPE, SIG_IGN);
+	g_stallOn = true;
 	Log log(args.out);
 	g_log = &log;
 	g_avoid = args.avoid;
